@@ -88,7 +88,7 @@ def build_task(spec, name="t"):
         if tp["kind"] == "number":
             params["target-throughput"] = tp["value"]
         elif tp["kind"] == "string":
-            params["target-throughput"] = f"{tp['value']} {tp['unit']}"
+            params["target-throughput"] = throughput_text(tp)
         else:
             params["target-interval"] = tp["value"]
     op = track.Operation(name + "-op", spec.get("op_type", "sim-op"), params={"task": name}, param_source="sim-source")
@@ -147,6 +147,20 @@ class RecordingHandle:
                 }
             )
             yield item
+
+
+def throughput_text(tp):
+    """the target throughput as a track author may write it (all of these match Rally's documented "<number> <unit>/s")"""
+    value, style = tp["value"], tp.get("text", "plain")
+    number = str(value)
+    if style == "leading-dot" and 0 < value < 1:
+        number = str(float(value))[1:]  # .5
+    elif style == "two-decimals":
+        number = f"{value:.2f}"  # 0.50, 4.00
+    elif style == "leading-zero":
+        number = "0" + number  # 00.5, 04
+    sep = "\t" if style == "tab" else " "
+    return f"{number}{sep}{tp['unit']}"
 
 
 def run_task(spec, complete_at=None, cancel_at=None):
